@@ -4,6 +4,9 @@ From BHS Require Import Work Store Chain ChainSpec StoreProofs ChainInv ChainReo
 Import ListNotations.
 Open Scope Z_scope.
 
+Lemma tip_row_is_tipB s : tip_row s = tipB s.
+Proof. reflexivity. Qed.
+
 (* ------------------------------------------------------------------------------------------ *)
 (* list facts                                                                                 *)
 (* ------------------------------------------------------------------------------------------ *)
@@ -299,7 +302,7 @@ Theorem no_stale_no_orphan hlt s batch key c k tot : page hlt s batch key = POk 
   forall e, In e c -> exists r, In r s /\ st r = Longest /\ e = rh r.
 Proof.
   unfold page. destruct (last_eval_height hlt s key) as [h| |]; try discriminate.
-  destruct (tipB s) as [t|]; [|discriminate]. intros H. inversion H; subst c. clear H.
+  destruct (tip_row s) as [t|]; [|discriminate]. intros H. inversion H; subst c. clear H.
   intros e He. apply in_map_iff in He. destruct He as (r & E & Hr). exists r.
   unfold merkle_from_height in Hr. apply in_firstn' in Hr. apply (proj1 (sort_h_in _ _)) in Hr.
   apply filter_In in Hr. destruct Hr as [Hin Hp]. apply in_rev in Hin. apply andb_prop in Hp.
@@ -378,7 +381,7 @@ Section Page.
   Proof.
     intros Hk. destruct (key_pos_height key i Hk) as [Hh Hi].
     destruct (A_asc s tip t HI Ht) as (Ha & Hlen & (rest & HA)). fold A in Ha, Hlen, HA.
-    unfold page, page_from. rewrite Hh, (tipB_is_tip s tip HI), Ht.
+    unfold page, page_from. rewrite Hh, tip_row_is_tipB, (tipB_is_tip s tip HI), Ht.
     rewrite (merkle_from_height_valid s tip t HI Ht (Z.of_nat i - 1) batch ltac:(lia)). fold A.
     replace (Z.to_nat (Z.of_nat i - 1 + 1)) with i by lia.
     set (X := skipn i A). set (P := firstn batch X). f_equal.
